@@ -263,10 +263,21 @@ class ResourceManager:
             else:
                 assert False # :nocov:
 
-        value = resolve(resource,
-            *merge_options(resource, dir, xdr),
-            path=(f"{resource.name}_{resource.number}",),
-            attrs=resource.attrs)
+        options = merge_options(resource, dir, xdr)
+        # A request that is refused midway must leave the allocation unchanged.
+        saved_phys_reqd = self._phys_reqd.copy()
+        saved_io_clocks = self._io_clocks.copy()
+        saved_pins_len  = len(self._pins)
+        try:
+            value = resolve(resource,
+                *options,
+                path=(f"{resource.name}_{resource.number}",),
+                attrs=resource.attrs)
+        except Exception:
+            self._phys_reqd = saved_phys_reqd
+            self._io_clocks = saved_io_clocks
+            del self._pins[saved_pins_len:]
+            raise
         self._requested[resource.name, resource.number] = value
         return value
 
